@@ -619,4 +619,149 @@ theorem question_codes_round :
     QTYPE.ofCode QTYPE.ANY.toCode = .ok .ANY ∧ QCLASS.ofCode QCLASS.ANY.toCode = .ok .ANY := by
   decide
 
+/-! ### 18. the record store and `build_reply` (simple-mdns) -/
+
+/-- `add_cached_resource` with the lifetime of a cache-flush record and the treatment of a record the
+store already holds as authoritative as parameters -/
+def addCachedWith (flushTtl : Nat) (guard : String) (s : Mdns.Store) (r : RR) (now : Nat) : Mdns.Store :=
+  let k := Mdns.getKey r.name
+  let ttl := if r.flush then flushTtl else r.ttl
+  let b := (s.bucket k).getD []
+  let put := s.setBucket k (b.insert r (.cached (now + 1000 * ttl) (now + 1000 * Mdns.refreshOffsetSecs ttl)))
+  if guard = "unless-authoritative" then
+    match b.get r with
+    | some .auth => s
+    | _ => put
+  else put
+
+/-- **`add_cached_resource` is the model's `addCached`**: a cache-flush record lives `1` second and a
+record registered locally is left alone, as the source has them (`{2}` for the flush lifetime, or the
+guard dropped, regenerates other values and this fails) -/
+theorem store_add_source (s : Mdns.Store) (r : RR) (now : Nat) :
+    s.addCached r now =
+      addCachedWith (Gen.Env.storeFlushTtl.getD 1) (Gen.Env.storeCachedGuard.getD "unless-authoritative") s r now := by
+  have h1 : Gen.Env.storeFlushTtl.getD 1 = 1 := by decide
+  have h2 : Gen.Env.storeCachedGuard.getD "unless-authoritative" = "unless-authoritative" := by decide
+  rw [h1, h2]
+  simp only [Mdns.Store.addCached, addCachedWith, if_true]
+  split <;> simp_all
+
+/-- the key shape the extractor recognises is the one `getKey` is written with: labels from the root
+down, each behind its length octet -/
+theorem store_key_shape : Gen.Env.storeKeyShape.getD "root-first-length-prefixed" = "root-first-length-prefixed" ∧
+    Mdns.getKey [[97], [98, 99]] = [2, 98, 99, 1, 97] := by decide
+
+def flagOf (param : Bool) (s : String) : Bool := if s = "param" then param else s = "true"
+
+/-- a `DomainResourceFilter` constructor, from its three field initialisers -/
+def filterOf (spec : List String) (param : Bool) : Mdns.Filter :=
+  ⟨flagOf param (spec.getD 0 ""), flagOf param (spec.getD 1 ""), flagOf param (spec.getD 2 "")⟩
+
+def modelFilterCtors : List (String × List String) :=
+  [("authoritative", ["param", "true", "false"]), ("cached", ["true", "false", "true"]), ("all", ["true", "true", "true"])]
+
+def cmpOf (op : String) (a b : Nat) : Bool :=
+  if op = ">" then a > b else if op = ">=" then a ≥ b else if op = "<" then a < b else a ≤ b
+
+def fieldOf (name : String) (f : Mdns.Filter) : Bool :=
+  if name = "authoritative" then f.authoritative else if name = "cached" then f.cached else f.subdomain
+
+/-- `match_filter` by what it consults -/
+def matchesWith (spec : List String) (f : Mdns.Filter) (k : Mdns.Kind) (now : Nat) : Bool :=
+  match k with
+  | .auth => fieldOf (spec.getD 0 "") f
+  | .cached e r => fieldOf (spec.getD 1 "") f &&
+      cmpOf (spec.getD 3 "") (if spec.getD 2 "" = "expire_at" then e else r) now
+
+/-- `should_refresh` by what it consults -/
+def shouldRefreshWith (spec : List String) (k : Mdns.Kind) (now : Nat) : Bool :=
+  match k with
+  | .auth => spec.getD 0 "" = "true"
+  | .cached e r => cmpOf (spec.getD 2 "") (if spec.getD 1 "" = "refresh_at" then r else e) now
+
+/-- **the filters of the store are the model's**: the three constructors field by field, which field
+`match_filter` consults for which kind of record and that a cached record counts while
+`expire_at > now`, that a refresh is due once `refresh_at < now`, and that `get_next_refresh` takes the
+minimum of the refresh instants (`>=` for `>`, `expire_at` for `refresh_at`, `cached: false` in
+`all()` - each regenerates another value and this fails) -/
+theorem store_filter_source (sub : Bool) (f : Mdns.Filter) (k : Mdns.Kind) (now : Nat) :
+    let ctors := Gen.Env.storeFilterCtors.getD modelFilterCtors
+    Mdns.Filter.auth sub = filterOf ((ctors.lookup "authoritative").getD []) sub ∧
+    Mdns.Filter.cachedOnly = filterOf ((ctors.lookup "cached").getD []) sub ∧
+    Mdns.Filter.all = filterOf ((ctors.lookup "all").getD []) sub ∧
+    f.matches k now = matchesWith (Gen.Env.storeMatchFilter.getD ["authoritative", "cached", "expire_at", ">"]) f k now ∧
+    k.shouldRefresh now = shouldRefreshWith (Gen.Env.storeShouldRefresh.getD ["false", "refresh_at", "<"]) k now ∧
+    Gen.Env.storeNextRefresh.getD ["refresh_at", "min"] = ["refresh_at", "min"] := by
+  have h1 : Gen.Env.storeFilterCtors.getD modelFilterCtors = modelFilterCtors := by decide
+  have h2 : Gen.Env.storeMatchFilter.getD ["authoritative", "cached", "expire_at", ">"] = ["authoritative", "cached", "expire_at", ">"] := by decide
+  have h3 : Gen.Env.storeShouldRefresh.getD ["false", "refresh_at", "<"] = ["false", "refresh_at", "<"] := by decide
+  have h4 : Gen.Env.storeNextRefresh.getD ["refresh_at", "min"] = ["refresh_at", "min"] := by decide
+  simp only [h1, h2, h3, h4]
+  refine ⟨?_, ?_, ?_, ?_, ?_, trivial⟩
+  · cases sub <;> decide
+  · cases sub <;> decide
+  · cases sub <;> decide
+  · cases k <;> simp [Mdns.Filter.matches, matchesWith, fieldOf, cmpOf]
+  · cases k <;> simp [Mdns.Kind.shouldRefresh, shouldRefreshWith, cmpOf]
+
+/-- `get_domain_resources` by its three decisions: the sub-trie at the key when subdomains are asked
+for, the bucket of the key otherwise, groups left empty by the filter dropped -/
+def getDomainWith (spec : List String) (s : Mdns.Store) (name : Name) (f : Mdns.Filter) (now : Nat) : List (List RR) :=
+  let k := Mdns.getKey name
+  let pick (b : Mdns.Bucket) : List RR := (b.filter (fun e => f.matches e.2 now)).map (·.1)
+  let whole := if s.nodeExists k then (s.entries.filter (fun e => Mdns.isPrefixOf k e.1)).map (fun e => pick e.2) else []
+  let exact := match s.bucket k with
+    | some b => [pick b]
+    | none => []
+  let found := if f.subdomain then (if spec.getD 0 "" = "subtrie-when-subdomain" then whole else exact)
+               else (if spec.getD 1 "" = "get-otherwise" then exact else whole)
+  if spec.getD 2 "" = "drop-empty-groups" then found.filter (fun g => !g.isEmpty) else found
+
+theorem store_lookup_source (s : Mdns.Store) (name : Name) (f : Mdns.Filter) (now : Nat) :
+    s.getDomain name f now =
+      getDomainWith (Gen.Env.storeLookup.getD ["subtrie-when-subdomain", "get-otherwise", "drop-empty-groups"]) s name f now := by
+  have h : Gen.Env.storeLookup.getD ["subtrie-when-subdomain", "get-otherwise", "drop-empty-groups"] =
+      ["subtrie-when-subdomain", "get-otherwise", "drop-empty-groups"] := by decide
+  rw [h]
+  simp only [Mdns.Store.getDomain, getDomainWith]
+  cases f.subdomain
+  · simp only [Bool.false_eq_true, if_false, if_true, List.getD_cons_zero, List.getD_cons_succ]
+    cases s.bucket (Mdns.getKey name) <;> rfl
+  · simp
+
+def typeNamed (s : String) : TYPE :=
+  if s = "A" then .A else if s = "AAAA" then .AAAA else if s = "SRV" then .SRV else if s = "TXT" then .TXT
+  else if s = "PTR" then .PTR else .Unknown 0
+
+/-- answers and additional records for one question, with the two look-up modes and the types of the
+additional records as parameters -/
+def answersForWith (ansSub tgtSub : Bool) (types : List String) (s : Mdns.Store) (q : Question) (now : Nat) :
+    List RR × List RR :=
+  let answers := ((s.getDomain q.name (Mdns.Filter.auth ansSub) now).flatten).filter
+    (fun r => r.matchQClass q.qclass && r.matchQType q.qtype)
+  let extra := answers.flatMap (fun a =>
+    match Mdns.srvTarget a.rdata with
+    | some t => ((s.getDomain t (Mdns.Filter.auth tgtSub) now).flatten).filter (fun r =>
+        types.any (fun ty => r.matchQType (.TYPE (typeNamed ty))) && r.matchQClass q.qclass)
+    | none => [])
+  (answers, extra)
+
+/-- **`build_reply` collects what the model collects**: answers from the question's name and
+everything below it, among authoritative records, by class and type; for an SRV answer the address
+records (A, AAAA) of exactly its target, of the question's class (`authoritative(false)` for the
+answers, a third type among the additional records, or the class test dropped: other values, and
+this fails or the item is untied) -/
+theorem build_reply_source (s : Mdns.Store) (q : Question) (now : Nat) :
+    Mdns.answersFor s q now =
+      answersForWith (Gen.Env.replyAnswerSub.getD "true" = "true") (Gen.Env.replyTargetSub.getD "false" = "true")
+        (Gen.Env.replyAdditionalTypes.getD ["A", "AAAA"]) s q now := by
+  have h1 : Gen.Env.replyAnswerSub.getD "true" = "true" := by decide
+  have h2 : Gen.Env.replyTargetSub.getD "false" = "false" := by decide
+  have h3 : Gen.Env.replyAdditionalTypes.getD ["A", "AAAA"] = ["A", "AAAA"] := by decide
+  rw [h1, h2, h3]
+  simp only [Mdns.answersFor, answersForWith, typeNamed, List.any_cons, List.any_nil, Bool.or_false,
+    if_true, if_false, decide_true, decide_false, (by decide : ("false" = "true") = False),
+    (by decide : ("AAAA" = "A") = False)]
+  congr 1
+
 end Dns.TieEnv
